@@ -99,7 +99,7 @@ def run(prog, rep, tier):
                 rep.ob('R15', True, key, '%s: %s' % (e['class'], e['reason']), body.loc(b.idx), sample='%s: %s' % (e['class'], e['reason']))
                 continue
             rep.ob('R15', False, key, 'unclassified growth site on a streaming path (%s %s on %s): memory may grow with the number of bytes streamed' % (kind, cn, tgt or '?'), body.loc(b.idx))
-    rep.floor('R15', n, 25, 'growth / allocation sites on the streaming paths')
+    rep.floor('R15', n, 12, 'growth / allocation sites on the streaming paths')
     for k in table:
         if k not in seen:
             rep.note('stale growth table entry: %s' % k)
